@@ -358,7 +358,7 @@ def rule_meta_fresh(ctx: Ctx) -> RuleResult:
     from ..rules.defuse import DefUse
 
     p = ctx.p
-    rr = RuleResult("FRESH", "C14.10", "MetaSignals.__init__ extends only the class's own signal list (from the class dict) or a fresh list", floor=1)
+    rr = RuleResult("FRESH", "C14.10", "MetaSignals.__init__ extends only a fresh list (a copy of the class body's declaration), never a list object another class may hold", floor=1)
     fi = p.func("urwid.signals.MetaSignals.__init__")
     du = DefUse(fi)
     dparam = fi.params[-1]
@@ -371,7 +371,9 @@ def rule_meta_fresh(ctx: Ctx) -> RuleResult:
                     if not isinstance(v, ast.AST):
                         continue
                     txt = ast.unparse(v)
-                    own = (isinstance(v, ast.Call) and isinstance(v.func, ast.Attribute) and v.func.attr == "get" and isinstance(v.func.value, ast.Name) and v.func.value.id == dparam) or isinstance(v, (ast.List, ast.ListComp)) or (isinstance(v, ast.Call) and isinstance(v.func, ast.Name) and v.func.id == "list")
+                    # a fresh list only: the list object written in the class body can be shared between classes
+                    # (signals = COMMON), and extending it leaks inherited names into the other class
+                    own = isinstance(v, (ast.List, ast.ListComp)) or (isinstance(v, ast.Call) and isinstance(v.func, ast.Name) and v.func.id == "list")
                     rr.inst(f"{norm(c, 40)}<-{txt[:40]}", True, {"mutation": norm(c, 50), "list_is": txt[:60]})
                     if not own:
                         rr.add(finding("FRESH", fi, c, f"`{norm(c, 50)}` extends a list obtained as `{txt[:60]}`: for a class that declares no signals of its own this is the list object of a base class, which is rewritten in place - after `class AB(A, B)` A.signals contains B's names and every later subclass of A accepts them", construct=f"inherited signal list extended in place: {txt[:50]}"))
@@ -492,13 +494,14 @@ from ..mutants import Mut  # noqa: E402
 
 _F = "urwid/signals.py"
 MUTANTS = [
+    Mut("meta-signals-extends-class-body-list", "urwid/signals.py", "MetaSignals.__init__", "signals = list(d.get(\"signals\", []))", "signals = d.get(\"signals\", [])", "FRESH|signals.MetaSignals.__init__"),
     Mut("disconnect-removes-every-match", "urwid/signals.py", "Signals.disconnect", "                return self.disconnect_by_key(obj, name, h[0])", "                self.disconnect_by_key(obj, name, h[0])", "PASS|signals.Signals.disconnect"),
     Mut("twin-disconnect-break-form", "urwid/signals.py", "Signals.disconnect", "                return self.disconnect_by_key(obj, name, h[0])", "                self.disconnect_by_key(obj, name, h[0])\n                break", twin=True),
     Mut("disconnect-iterates-live-list", "urwid/signals.py", "Signals.disconnect", "for h in list(handlers):", "for h in handlers:", "SNAP|signals.Signals.disconnect"),
     Mut("weakref-callback-truthiness", "urwid/signals.py", "Signals.connect", "            if o is not None:\n", "            if o:\n", "SNAP|signals.Signals.connect.<locals>.weakref_callback"),
     Mut("twin-disconnect-tuple-snapshot", "urwid/signals.py", "Signals.disconnect", "for h in list(handlers):", "for h in tuple(handlers):", twin=True),
     Mut("disconnect-prefilter-by-identity", "urwid/signals.py", "Signals.disconnect", "        handlers = signals[name]\n", "        handlers = signals[name]\n        if not any(h[1] is callback for h in handlers):\n            return None\n", "KIND|signals.Signals.disconnect"),
-    Mut("meta-signals-extends-inherited-list", "urwid/signals.py", "MetaSignals.__init__", "signals = d.get(\"signals\", [])", "signals = getattr(cls, \"signals\", [])", "FRESH|signals.MetaSignals.__init__"),
+    Mut("meta-signals-extends-inherited-list", "urwid/signals.py", "MetaSignals.__init__", "signals = list(d.get(\"signals\", []))", "signals = getattr(cls, \"signals\", [])", "FRESH|signals.MetaSignals.__init__"),
     Mut("user-args-not-copied", "urwid/signals.py", "Signals._prepare_user_args", "args = tuple(user_args) or ()", "args = user_args or ()", "SNAP|signals.Signals._prepare_user_args"),
     Mut("twin-user-args-tuple-only", "urwid/signals.py", "Signals._prepare_user_args", "args = tuple(user_args) or ()", "args = tuple(user_args)", twin=True),
     Mut("emit-live-list", _F, "Signals.emit", "in list(handlers):", "in handlers:", "SNAP|signals.Signals.emit"),
